@@ -48,6 +48,9 @@ type c15Plan struct {
 	Msgs      []c15Msg `json:"msgs"`
 	RandSeed  uint64   `json:"rand_seed"`
 	SchedSeed uint64   `json:"sched_seed"`
+	// Prev: before the block under test the same verifier process has signed an EARLIER block of
+	// the same group with every member honest (process history: verification caches, stores)
+	Prev bool `json:"prev,omitempty"`
 }
 
 type c15 struct{}
@@ -66,15 +69,15 @@ func (c15) Budget(tier string) runner.Budget {
 
 func (c15) Describe() runner.Description {
 	return runner.Description{
-		Rule: "each plan: group of n in [3,10] members keyed by the node's DKG code; a real proposed block; the verifier (member 0) runs the real signing party; every other member sends one or more verify messages in a seeded arrival order, some before the proposal is accepted (stored-message replay, which iterates a map): honest (share over this block's hash + beacon share over the previous beacon), or Byzantine: a valid signature over a DIFFERENT hash filed under this block's hash, another member's share under their own id, their own share twice, a share from a non-member id, garbage/identity points, valid block share with invalid beacon share and vice versa. After every delivery the block-signature and beacon share sets must contain only (member -> that member's valid share for this block hash / previous beacon), at most one per member; once the proposal is accepted and k honest members' messages are in (any order, any Byzantine traffic from at most n-k members interleaved) the party must have finalised within that delivery with a block signature and beacon that verify under the group public key (bounded liveness: 0 further steps). distinct_nontrivial = distinct (n, Byzantine pattern, early/late pattern) triples with at least one Byzantine message.",
+		Rule: "each plan: group of n in [3,10] members keyed by the node's DKG code; a real proposed block; the verifier (member 0) runs the real signing party; every other member sends one or more verify messages in a seeded arrival order, some before the proposal is accepted (stored-message replay, which iterates a map): honest (share over this block's hash + beacon share over the previous beacon), or Byzantine: a valid signature over a DIFFERENT hash filed under this block's hash, another member's share under their own id, their own share twice, a share from a non-member id, garbage/identity points, valid block share with invalid beacon share and vice versa; in 40% of the plans the same verifier process has first signed an EARLIER block of the group with all members honest, and a Byzantine member replays its valid share (block or beacon) of that earlier block inside a message naming this block. After every delivery the block-signature and beacon share sets must contain only (member -> that member's valid share for this block hash / previous beacon), at most one per member; once the proposal is accepted and k honest members' messages are in (any order, any Byzantine traffic from at most n-k members interleaved) the party must have finalised within that delivery with a block signature and beacon that verify under the group public key (bounded liveness: 0 further steps). distinct_nontrivial = distinct (n, Byzantine pattern, early/late pattern) triples with at least one Byzantine message.",
 		Assumptions: []string{"round0's own acceptance checks (castor key, VRF, group selection, time window) are not part of C15: the party is positioned after them by an in-package driver", "at most n-k members are Byzantine when liveness is asserted; set-content checks hold for any number"},
 		Real:        []string{"consensus/logical SignParty, round1 (share collection), round2 (finalizer), stored-message replay", "consensus/net verify-message decoder", "consensus/groupsig (verify, recover)", "group_create.GetMemberSignPubKey + access.JoinedGroupStorage on the node's store", "core chain (GenerateBlock, AddBlockOnChain) of a booted node"},
 		Stub:        []string{"other group members (scripted)", "consensus network server (recording fake)", "ConsensusHelper of the chain"},
-		FaultKinds:  []string{"byz_other_hash", "byz_replay_member", "byz_duplicate", "byz_non_member", "byz_garbage", "byz_bad_beacon", "byz_bad_block_share", "early_arrival", "map_order_seed"},
+		FaultKinds:  []string{"byz_other_hash", "byz_replay_member", "byz_duplicate", "byz_non_member", "byz_garbage", "byz_bad_beacon", "byz_bad_block_share", "byz_replay_old_block_share", "prior_block_signed_in_process", "early_arrival", "map_order_seed"},
 	}
 }
 
-var c15Kinds = []string{"otherhash", "otherblock", "replay", "dup", "nonmember", "garbage", "badbeacon", "badblock"}
+var c15Kinds = []string{"otherhash", "otherblock", "replay", "dup", "nonmember", "garbage", "badbeacon", "badblock", "oldshare"}
 
 func (c15) Gen(seed uint64, tier string) json.RawMessage {
 	r := simrt.NewRand(seed)
@@ -82,6 +85,7 @@ func (c15) Gen(seed uint64, tier string) json.RawMessage {
 	if r.Chance(0.4) {
 		p.N = r.Range(3, 6)
 	}
+	p.Prev = r.Chance(0.4)
 	k := (p.N*51 + 99) / 100
 	maxByz := p.N - k
 	byz := map[int]bool{}
@@ -223,6 +227,39 @@ func (c15) Exec(raw json.RawMessage, st *simrt.Stats, log *simrt.Log) *simrt.Vio
 	fnet := &c15Net{}
 	group_create.SimInstall(self, storage, fnet)
 
+	// process history: an earlier block of the same group signed by this verifier with all members honest
+	var prevHash common.Hash
+	var prevBeacon []byte
+	if p.Prev {
+		tx0 := node.TransferTx(node.Funded[1], 0, map[string]string{node.Account(6): "2"}, fmt.Sprintf("c15p-%d", p.Seed))
+		blk0, err := nd.CastBlock(node.BlockSpec{QN: 1, PV: 4, TimeMs: 3000, Txs: []*types.Transaction{tx0}})
+		if err != nil {
+			panic(runner.InfraError{Msg: "c15 cast (previous block): " + err.Error()})
+		}
+		pre0 := nd.Chain.TopBlock()
+		bh0 := *blk0.Header
+		bh0.GroupId = gid.Serialize()
+		bh0.Signature, bh0.Random = nil, nil
+		party0 := logical.SimNewSignParty(&bh0, pre0, group, self.ID, nd.Chain, fnet, storage)
+		res0 := simsched.Run(simsched.Options{Seed: p.SchedSeed ^ 0x70726576, Policy: "random", MaxPreempt: -1, MaxSteps: 400000}, []string{"verifier"}, []func(){func() {
+			party0.AcceptProposal()
+			for j := 0; j < n; j++ {
+				w := c15Wire(bh0.Hash, bh0.Hash, groupsig.Sign(sks[j], bh0.Hash.Bytes()).Serialize(), groupsig.Sign(sks[j], pre0.Random).Serialize(), ids[j].Serialize())
+				if cvm, err := cnet.UnMarshalConsensusVerifyMessage(w); err == nil && cvm != nil {
+					party0.Update(cvm)
+				}
+			}
+		}})
+		if res0.Panic != nil {
+			return viol(-1, "host-panic", "signing-party", "%v", res0.Panic)
+		}
+		if !party0.Finished() {
+			return viol(-1, "valid-block-not-finalised", "previous-block", "n=%d: all %d members' honest shares for the earlier block were delivered but the party did not finalise (round %d, error %v)", n, n, party0.Round(), party0.TakeErr())
+		}
+		prevHash, prevBeacon = bh0.Hash, pre0.Random
+		st.Fault("prior_block_signed_in_process")
+	}
+
 	// a real proposed block
 	tx := node.TransferTx(node.Funded[0], 0, map[string]string{node.Account(5): "3"}, fmt.Sprintf("c15-%d", p.Seed))
 	blk, err := nd.CastBlock(node.BlockSpec{QN: 1, PV: 5, TimeMs: 5000, Txs: []*types.Transaction{tx}})
@@ -273,6 +310,17 @@ func (c15) Exec(raw json.RawMessage, st *simrt.Stats, log *simrt.Log) *simrt.Vio
 				g = make([]byte, len(bs)) // all zero
 			}
 			return c15Wire(bh.Hash, bh.Hash, g, rs, idb)
+		case "oldshare":
+			// the member's VALID share from the earlier block, replayed in a message that names this block
+			if !p.Prev {
+				st.Fault("byz_other_hash")
+				return c15Wire(bh.Hash, otherHash, groupsig.Sign(sks[j], otherHash.Bytes()).Serialize(), rs, idb)
+			}
+			st.Fault("byz_replay_old_block_share")
+			if m.Arg%2 == 0 {
+				return c15Wire(bh.Hash, bh.Hash, groupsig.Sign(sks[j], prevHash.Bytes()).Serialize(), rs, idb)
+			}
+			return c15Wire(bh.Hash, bh.Hash, bs, groupsig.Sign(sks[j], prevBeacon).Serialize(), idb)
 		case "badbeacon":
 			st.Fault("byz_bad_beacon")
 			return c15Wire(bh.Hash, bh.Hash, bs, groupsig.Sign(sks[j], []byte("not the beacon")).Serialize(), idb)
